@@ -1,23 +1,192 @@
 (** C06: custom DNS rewrites follow the documented precedence and always
     terminate.  Only statements here; proofs live in Proofs/Rewrites.v.
 
-    [sort] is ANY function returning a permutation of its argument (and,
-    for the precedence theorems, one that is sorted by [Compare]): Go's
-    slices.SortFunc is not stable, and nothing here depends on stability. *)
-From Coq Require Import ZArith NArith List Bool Permutation Sorted.
+    [sort] is ANY function returning a permutation of its argument that is
+    sorted by [Compare] ([sorted_by_compare]: no later element is smaller
+    than an earlier one): Go's slices.SortFunc is not stable, and nothing
+    here depends on stability.  [isort] (used by the evaluator) is one. *)
+From Coq Require Import ZArith NArith List Bool Permutation Sorted String.
 From AGH Require Import Base.Run Model.Rewrites Proofs.Rewrites.
+Import ListNotations.
+
+Definition is_sort (sort : list entry -> list entry) : Prop :=
+  (forall l, Permutation (sort l) l) /\ (forall l, sorted_by_compare (sort l)).
+
+(** The hypotheses on [sort] are satisfiable, and [Compare] is a strict weak
+    order (what slices.SortFunc requires to deliver a sorted result). *)
+Theorem C06_sort_exists : forall l, Permutation (isort l) l /\ sorted_by_compare (isort l).
+Proof. exact (fun l => conj (isort_perm l) (isort_sorted l)). Qed.
+Print Assumptions C06_sort_exists.
+
+Theorem C06_compare_strict_weak_order :
+  (forall a, lt_entry a a = false) /\
+  (forall a b c, lt_entry a b = true -> lt_entry b c = true -> lt_entry a c = true) /\
+  (forall a b c, lt_entry a b = false -> lt_entry b c = false -> lt_entry a c = false).
+Proof. exact (conj lt_entry_irrefl (conj lt_entry_trans lt_entry_negtrans)). Qed.
+Print Assumptions C06_compare_strict_weak_order.
 
 (** The CNAME chase never runs out of its [S (length table)] units of fuel:
-    processRewrites returns for every table, name and type (cycles of any
-    shape included). *)
+    processRewrites and CheckHost return for every table, name and type
+    (CNAME cycles of any shape included). *)
 Theorem C06_terminates :
   forall sort, (forall l, Permutation (sort l) l) ->
   forall (tbl : list entry) (host : bytes) (qt : N),
     process_rewrites sort tbl host qt <> None /\
     forall enabled, check_host sort enabled tbl host qt <> None.
-Proof.
-  intros sort Hs tbl host qt. split.
-  - exact (process_rewrites_terminates sort Hs tbl host qt).
-  - intros en. exact (check_host_terminates sort Hs en tbl host qt).
-Qed.
+Proof. exact terminates. Qed.
 Print Assumptions C06_terminates.
+
+(** Every address in a result belongs to a table entry that covers the
+    finally resolved name (the canonical name, or the queried name when no
+    CNAME was followed) and has the requested type. *)
+Theorem C06_addresses_from_table :
+  forall sort, (forall l, Permutation (sort l) l) ->
+  forall tbl host qt r i,
+    process_rewrites sort tbl host qt = Some r -> In i (r_ips r) ->
+    exists final,
+      (final = r_canon r \/ (r_canon r = [] /\ final = host)) /\
+      exists e, In e tbl /\ matches_host e final = true /\ e_ip e = Some i /\
+                rtype_code (e_type e) = qt /\ (qt = qA \/ qt = qAAAA).
+Proof. exact addresses_from_table. Qed.
+Print Assumptions C06_addresses_from_table.
+
+Theorem C06_addresses_from_table_check_host :
+  forall sort, (forall l, Permutation (sort l) l) ->
+  forall enabled tbl host qt r i,
+    check_host sort enabled tbl host qt = Some r -> In i (r_ips r) ->
+    exists final,
+      (final = r_canon r \/ (r_canon r = [] /\ final = to_lower host)) /\
+      exists e, In e tbl /\ matches_host e final = true /\ e_ip e = Some i /\
+                rtype_code (e_type e) = qt /\ (qt = qA \/ qt = qAAAA).
+Proof. exact check_host_addresses. Qed.
+Print Assumptions C06_addresses_from_table_check_host.
+
+(** For a normalised table the requested type is the address family. *)
+Theorem C06_addresses_family :
+  forall sort, (forall l, Permutation (sort l) l) ->
+  forall raws host qt r i,
+    process_rewrites sort (map normalize raws) host qt = Some r -> In i (r_ips r) ->
+    ip_is4 i = N.eqb qt qA.
+Proof. exact addresses_family. Qed.
+Print Assumptions C06_addresses_family.
+
+(** CNAME entries take precedence over address entries: if any CNAME entry
+    covers the name, the entry acted upon first is a CNAME. *)
+Theorem C06_cname_over_address :
+  forall sort, (forall l, Permutation (sort l) l) -> (forall l, sorted_by_compare (sort l)) ->
+  forall tbl host qt,
+    (exists e, In e tbl /\ matches_host e host = true /\ is_cname e = true) ->
+    exists r rest, fst (find_rewrites sort tbl host qt) = r :: rest /\ is_cname r = true.
+Proof. exact cname_over_address. Qed.
+Print Assumptions C06_cname_over_address.
+
+(** Within one kind (CNAME / address) an exact-name entry shadows wildcard
+    entries: a wildcard entry is used only if every entry of its kind that
+    covers the name for this type is a wildcard. *)
+Theorem C06_exact_shadows_wildcard :
+  forall sort, (forall l, Permutation (sort l) l) -> (forall l, sorted_by_compare (sort l)) ->
+  forall tbl host qt rws m r e,
+    find_rewrites sort tbl host qt = (rws, m) -> In r rws ->
+    is_wildcard (e_dom r) = true ->
+    (In e tbl /\ matches_host e host = true /\ match_qtype e qt = true) ->
+    is_cname e = is_cname r ->
+    is_wildcard (e_dom e) = true.
+Proof. exact exact_shadows_wildcard. Qed.
+Print Assumptions C06_exact_shadows_wildcard.
+
+(** Among wildcards the most specific wins: a wildcard entry that is used is
+    the only entry used and no entry of its kind has a longer pattern. *)
+Theorem C06_most_specific_wildcard :
+  forall sort, (forall l, Permutation (sort l) l) -> (forall l, sorted_by_compare (sort l)) ->
+  forall tbl host qt rws m r e,
+    find_rewrites sort tbl host qt = (rws, m) -> In r rws ->
+    is_wildcard (e_dom r) = true ->
+    (In e tbl /\ matches_host e host = true /\ match_qtype e qt = true) ->
+    is_cname e = is_cname r ->
+    (length (e_dom e) <= length (e_dom r))%nat.
+Proof. exact most_specific_wildcard. Qed.
+Print Assumptions C06_most_specific_wildcard.
+
+Theorem C06_wildcard_used_alone :
+  forall sort, (forall l, Permutation (sort l) l) -> (forall l, sorted_by_compare (sort l)) ->
+  forall tbl host qt rws m r,
+    find_rewrites sort tbl host qt = (rws, m) -> In r rws ->
+    is_wildcard (e_dom r) = true ->
+    rws = [r] /\
+    forall e, (In e tbl /\ matches_host e host = true /\ match_qtype e qt = true) ->
+              lt_entry e r = false.
+Proof. exact wildcard_result. Qed.
+Print Assumptions C06_wildcard_used_alone.
+
+(** Exceptions, at the level of CheckHost.  "name -> name": *)
+Theorem C06_exceptions_self :
+  forall sort, (forall l, Permutation (sort l) l) -> (forall l, sorted_by_compare (sort l)) ->
+  forall enabled tbl host qt,
+    (exists e, In e tbl /\ e_dom e = to_lower host /\ is_cname e = true) ->
+    (forall e, In e tbl -> e_dom e = to_lower host -> is_cname e = true ->
+               e_ans e = to_lower host) ->
+    check_host sort enabled tbl host qt = Some empty_result.
+Proof. exact check_host_self_exception. Qed.
+Print Assumptions C06_exceptions_self.
+
+(** "name -> A" and "name -> AAAA" pass queries of that type on (no CNAME
+    entry covering the name). *)
+Theorem C06_exceptions_type :
+  forall sort, (forall l, Permutation (sort l) l) -> (forall l, sorted_by_compare (sort l)) ->
+  forall enabled tbl host qt x,
+    is_wildcard (to_lower host) = false ->
+    (forall e, In e tbl -> matches_host e (to_lower host) = true -> is_cname e = false) ->
+    In x tbl -> e_dom x = to_lower host ->
+    (rtype_code (e_type x) = qt /\ is_addr_q qt = true /\ e_ip x = None) ->
+    check_host sort enabled tbl host qt = Some empty_result.
+Proof. exact check_host_type_exception. Qed.
+Print Assumptions C06_exceptions_type.
+
+(** ... and these are the only ways a covered name is passed on: a CNAME
+    entry pointing at the queried name or at its own pattern, or an "A" /
+    "AAAA" entry of exactly the requested type. *)
+Theorem C06_exceptions_only :
+  forall sort, (forall l, Permutation (sort l) l) ->
+  forall tbl host qt,
+    host <> [] -> check_host sort true tbl host qt = Some empty_result ->
+    (exists e, In e tbl /\ matches_host e (to_lower host) = true) ->
+    (exists e, In e tbl /\ is_cname e = true /\
+               (e_ans e = to_lower host \/ e_ans e = e_dom e)) \/
+    (exists e final, In e tbl /\ matches_host e final = true /\
+               rtype_code (e_type e) = qt /\ is_addr_q qt = true /\ e_ip e = None).
+Proof. exact check_host_passes_only_by_exception. Qed.
+Print Assumptions C06_exceptions_only.
+
+(** A name covered by the table without a value for the requested type is
+    rewritten to an empty answer (so it is answered locally, not upstream). *)
+Theorem C06_matched_without_value :
+  forall (sort : list entry -> list entry) tbl host qt,
+    host <> [] ->
+    (exists e, In e tbl /\ matches_host e (to_lower host) = true) ->
+    (forall e, In e tbl -> matches_host e (to_lower host) = true -> match_qtype e qt = false) ->
+    check_host sort true tbl host qt =
+      Some {| r_reason := Rewritten; r_canon := []; r_ips := [] |}.
+Proof. exact check_host_matched_without_value. Qed.
+Print Assumptions C06_matched_without_value.
+
+(** The AGHTechDoc examples (Proofs/Rewrites.v, module DocExamples), closed
+    by vm_compute on the model: *)
+Theorem C06_doc_examples :
+  let open := DocExamples.ask in
+  open DocExamples.t1 "host.com"%string qA = DocExamples.answer "" [DocExamples.ip1234] /\
+  open DocExamples.t1 "host.com"%string qAAAA = DocExamples.answer "" [] /\
+  open DocExamples.t2 "host.com"%string qA = DocExamples.answer "" [] /\
+  open DocExamples.t2 "host.com"%string qAAAA = DocExamples.answer "" [DocExamples.ip6_1] /\
+  open DocExamples.t3 "sub.host.com"%string qA = DocExamples.answer "host.com" [] /\
+  open DocExamples.t4 "sub.host.com"%string qA = DocExamples.answer "host.com" [DocExamples.ip1234] /\
+  open DocExamples.t4 "sub.host.com"%string qAAAA = DocExamples.answer "host.com" [] /\
+  open DocExamples.t5 "my.host.com"%string qA = DocExamples.answer "" [DocExamples.ip1234] /\
+  open DocExamples.t5 "my.host.com"%string qAAAA = DocExamples.answer "" [] /\
+  open DocExamples.t5 "pass.host.com"%string qA = DocExamples.upstream /\
+  open DocExamples.t5 "pass.host.com"%string qAAAA = DocExamples.upstream /\
+  open DocExamples.t6 "host.com"%string qA = DocExamples.answer "" [DocExamples.ip1234] /\
+  open DocExamples.t6 "host.com"%string qAAAA = DocExamples.upstream /\
+  open DocExamples.t7 "host.com"%string qA = DocExamples.upstream /\
+  open DocExamples.t7 "host.com"%string qAAAA = DocExamples.answer "" [].
+Proof. exact DocExamples.all. Qed.
+Print Assumptions C06_doc_examples.
